@@ -23,7 +23,7 @@ def cases(tier, rng, dist):
     for _ in range(N):
         B, n = rng.randint(1, 10), rng.randint(2, 4)
         m = gen_matrix(rng, B, n, rng.randint(1, 4))
-        spec = rng.choice(COMBS[:6])
+        spec = rng.choice(COMBS[:6] + COMBS[8:])
         lo = 1; hi = 7 if spec == "liptak" else 8
         p = [Fraction(rng.randint(lo, hi), 8) for _ in range(n)]
         kind = rng.choice(["raise", "relabel", "transform", "dtype"])
@@ -148,6 +148,10 @@ def oracle(c, o):
     e1 = exact_npc(p, m, c["comb"], c["plus1"])
     p2, m2, _ = second(c)
     e2 = exact_npc(p2, m2, c["comb"], c["plus1"])
+    for (e, r, pp) in ((e1, r1, p), (e2, r2, p2)):
+        if e[0] == "exc" and r[0] == "ok":
+            return {"why": f"npc accepted the combining function {c['comb']} (increasing in one of its arguments at p={[str(x) for x in pp]}) and returned {r[1]}; the monotonicity guard must raise ValueError",
+                    "cls": "npc:combfunc-guard"}
     if e1[0] == "exc" or e2[0] == "exc":
         return None
     if r1[0] != "ok" or r2[0] != "ok":
